@@ -1269,11 +1269,11 @@ func main() {
 		cn = append(cn, n)
 	}
 	sort.Strings(cn)
-	intRe := regexp.MustCompile(`^-?\d+$`)
+	intRe := regexp.MustCompile(`^[+-]?\d+$`)
 	for _, n := range cn {
 		v := tb.Consts[n]
 		if intRe.MatchString(v) {
-			fmt.Fprintf(&w, "Definition const_%s : Z := (%s).\n", n, v)
+			fmt.Fprintf(&w, "Definition const_%s : Z := (%s).\n", n, strings.TrimPrefix(v, "+"))
 		} else {
 			fmt.Fprintf(&w, "(* const %s = %s (not a literal) *)\n", n, v)
 		}
